@@ -39,8 +39,12 @@ use std::{
     fmt::Display,
     hash::Hash,
     ops::Deref,
-    sync::{Arc, RwLock, Weak},
+    sync::{Arc, Weak},
 };
+#[cfg(not(gdsl_verif))]
+use std::sync::RwLock;
+#[cfg(gdsl_verif)]
+use crate::verif_hook::RwLock;
 
 use self::{
     adjacent::*,
@@ -217,6 +221,13 @@ where
     /// ```
     pub fn value(&self) -> &N {
         &self.inner.1
+    }
+
+    /// Verification observer (cfg `gdsl_verif` only): number of half-edges this
+    /// node created itself, i.e. where `iter()` switches from own to received ones.
+    #[cfg(gdsl_verif)]
+    pub fn verif_outbound_len(&self) -> usize {
+        self.inner.2.read().unwrap().len_outbound()
     }
 
     /// Returns the degree of the node. The degree is the number of
